@@ -41,6 +41,11 @@ type Plugin interface {
 	Apply(ra *ndp.RouterAdvertisement) error
 }
 
+// errNotPrepared is returned when a Plugin which depends on dynamic interface
+// state is applied before Prepare was called, such as when metrics are scraped
+// before an interface is ready.
+var errNotPrepared = errors.New("plugin: Prepare must be called before Apply")
+
 // CaptivePortal configures a NDP Captive Portal option.
 type CaptivePortal struct {
 	Portal *ndp.CaptivePortal
@@ -301,6 +306,10 @@ func (p *Prefix) Prepare(ifi *net.Interface) error {
 
 // Apply implements Plugin.
 func (p *Prefix) Apply(ra *ndp.RouterAdvertisement) error {
+	if p.Deprecated && p.TimeNow == nil {
+		return errNotPrepared
+	}
+
 	if !p.Auto {
 		// User specified an exact prefix so apply it directly.
 		p.apply([]netip.Prefix{p.Prefix}, ra)
@@ -324,6 +333,10 @@ func (p *Prefix) Apply(ra *ndp.RouterAdvertisement) error {
 func (p *Prefix) current() ([]netip.Prefix, error) {
 	// Expand ::/N to all unique, non-link local prefixes with matching length
 	// on this interface.
+	if p.Addrs == nil {
+		return nil, errNotPrepared
+	}
+
 	addrs, err := p.Addrs()
 	if err != nil {
 		return nil, fmt.Errorf("failed to fetch IP addresses: %v", err)
@@ -493,6 +506,10 @@ func (r *Route) Prepare(_ *net.Interface) error {
 
 // Apply implements Plugin.
 func (r *Route) Apply(ra *ndp.RouterAdvertisement) error {
+	if r.Deprecated && r.TimeNow == nil {
+		return errNotPrepared
+	}
+
 	if !r.Auto {
 		// User specified an exact route so apply it directly.
 		r.apply([]netip.Prefix{r.Prefix}, ra)
@@ -520,6 +537,10 @@ func (r *Route) current() ([]netip.Prefix, error) {
 	//
 	// TODO(mdlayher): if we choose to accept syntax other than ::/0, we'll have
 	// to update this logic.
+	if r.Routes == nil {
+		return nil, errNotPrepared
+	}
+
 	routes, err := r.Routes()
 	if err != nil {
 		return nil, err
@@ -693,6 +714,10 @@ func (r *RDNSS) current() (netip.Addr, error) {
 	// Expand :: to one of the IPv6 addresses on this interface. The "best"
 	// address will be chosen by comparing all addresses on the interface for
 	// desired properties.
+	if r.Addrs == nil {
+		return netip.Addr{}, errNotPrepared
+	}
+
 	addrs, err := r.Addrs()
 	if err != nil {
 		return netip.Addr{}, fmt.Errorf("failed to fetch IP addresses: %v", err)
